@@ -7,6 +7,7 @@ protocol and the function-call error dispatcher.  Does NOT decide the absence
 of internal exceptions in general (unbounded).
 """
 import ast
+import copy
 import builtins
 import re
 
@@ -405,6 +406,111 @@ def _norm_body(h):
   return [ast.dump(Ren().visit(copy.deepcopy(s))) for s in h.body]
 
 
+def _once_bound_const(mod, name):
+  """The value node of a module-level name bound exactly once in the module."""
+  stores = [n for n in ast.walk(mod.tree) if isinstance(n, ast.Name) and n.id == name
+            and isinstance(n.ctx, (ast.Store, ast.Del))]
+  if len(stores) != 1 or name not in mod.assigns or name in mod.functions or name in mod.classes:
+    return None
+  return mod.assigns[name]
+
+
+def _expand_table_handler(mod, h, var):
+  """`except TYPES as e: var = describe(x, e)` driven by a module-level ordered
+  table - TYPES = tuple(t for t, .. in TABLE), describe = `for t, a, b in
+  TABLE: if isinstance(e, t): return (x, getattr(e, a), getattr(e, b))` then
+  raise - is the chain `except <t1> as e: var = (x, e.<a1>, e.<b1>)`, `except
+  <t2> ...` in table order (an exception caught by the tuple is an instance of
+  some row's type, and the first row that matches decides, exactly like the
+  first matching except clause).  Returns the synthetic handlers, [h] when the
+  handler is not of that kind, AnalysisError when it is but is not understood."""
+  if not isinstance(h.type, ast.Name) or dotted(h.type) in mod.classes or \
+      dotted(h.type) in mod.imports or h.type.id not in mod.assigns:
+    return [h]
+  val = _once_bound_const(mod, h.type.id)
+  if isinstance(val, (ast.Name, ast.Attribute)):
+    return [h]       # a plain alias: _resolve_exc follows it
+
+  def refuse(msg):
+    raise AnalysisError(f"{mod.rel}: `except {h.type.id}`: {msg}")
+  if not (isinstance(val, ast.Call) and dotted(val.func) == "tuple" and len(val.args) == 1
+          and not val.keywords and isinstance(val.args[0], (ast.GeneratorExp, ast.ListComp))):
+    refuse(f"exception type `{src(val)[:80]}` is computed" if val is not None
+           else "the name is not bound once at module level")
+  comp = val.args[0]
+  g = comp.generators[0]
+  if len(comp.generators) != 1 or g.ifs or g.is_async or not isinstance(g.iter, ast.Name) or \
+      not isinstance(g.target, ast.Tuple) or not all(isinstance(e, ast.Name) for e in g.target.elts) \
+      or not isinstance(comp.elt, ast.Name):
+    refuse("the comprehension computing the exception types is not understood")
+  cols = [e.id for e in g.target.elts]
+  if cols.count(comp.elt.id) != 1:
+    refuse("the comprehension computing the exception types is not understood")
+  tcol, table_name = cols.index(comp.elt.id), g.iter.id
+  table = _once_bound_const(mod, table_name)
+  if not isinstance(table, (ast.Tuple, ast.List)) or not table.elts or not all(
+      isinstance(r, ast.Tuple) and len(r.elts) == len(cols) for r in table.elts):
+    refuse(f"the table {table_name} is not a literal of {len(cols)}-tuples bound once")
+  # the handler body: var = describe(x, e)
+  if not (len(h.body) == 1 and isinstance(h.body[0], ast.Assign) and len(h.body[0].targets) == 1
+          and dotted(h.body[0].targets[0]) == var and isinstance(h.body[0].value, ast.Call)
+          and h.name):
+    refuse(f"the handler does not bind `{var}` to the result of one helper call")
+  call = h.body[0].value
+  helper = U.callee_of(mod, call)
+  if helper is None or call.keywords or any(isinstance(a, ast.Starred) for a in call.args):
+    refuse(f"`{src(call)[:60]}` is not a plain call of a module-level helper")
+  ps = U.params_of(helper)
+  if len(ps) != len(call.args) or helper.args.vararg or helper.args.kwarg or helper.args.kwonlyargs \
+      or helper.decorator_list:
+    refuse(f"{helper.name}: signature / call mismatch")
+  arg_of = dict(zip(ps, call.args))
+  exc_ps = [p for p, a in arg_of.items() if dotted(a) == h.name]
+  if len(exc_ps) != 1 or any(dotted(a) is None for a in call.args):
+    refuse(f"`{src(call)[:60]}`: the arguments are not the exception and plain names")
+  exc_p = exc_ps[0]
+  body = [st for st in helper.body if not (isinstance(st, ast.Expr) and isinstance(st.value, ast.Constant))]
+  ok = len(body) == 2 and isinstance(body[0], ast.For) and isinstance(body[1], ast.Raise) \
+      and not body[0].orelse and dotted(body[0].iter) == table_name \
+      and isinstance(body[0].target, ast.Tuple) and len(body[0].target.elts) == len(cols) \
+      and all(isinstance(e, ast.Name) for e in body[0].target.elts) and len(body[0].body) == 1
+  if ok:
+    lcols = [e.id for e in body[0].target.elts]
+    iff = body[0].body[0]
+    ok = isinstance(iff, ast.If) and not iff.orelse and len(iff.body) == 1 \
+        and isinstance(iff.body[0], ast.Return) and isinstance(iff.body[0].value, ast.Tuple) \
+        and src(iff.test) == f"isinstance({exc_p}, {lcols[tcol]})" \
+        and len(set(lcols + ps)) == len(lcols) + len(ps)
+  if not ok:
+    refuse(f"{helper.name} is not `for <row> in {table_name}: if isinstance(<exc>, <type>): "
+           "return (<tuple>)` followed by raise")
+  out = []
+  for row in table.elts:
+    elts = []
+    for e in iff.body[0].value.elts:
+      if isinstance(e, ast.Name) and e.id in arg_of and e.id != exc_p:
+        elts.append(copy.deepcopy(arg_of[e.id]))
+      elif isinstance(e, ast.Call) and dotted(e.func) == "getattr" and len(e.args) == 2 \
+          and not e.keywords and dotted(e.args[0]) == exc_p and isinstance(e.args[1], ast.Name) \
+          and e.args[1].id in lcols and e.args[1].id != lcols[tcol]:
+        attr = row.elts[lcols.index(e.args[1].id)]
+        if not (isinstance(attr, ast.Constant) and isinstance(attr.value, str)
+                and attr.value.isidentifier()):
+          refuse(f"table cell `{src(attr)}` is not an attribute name")
+        elts.append(ast.Attribute(value=ast.Name(id=h.name, ctx=ast.Load()), attr=attr.value,
+                                  ctx=ast.Load()))
+      else:
+        refuse(f"{helper.name}: tuple element `{src(e)}` is not understood")
+    new = ast.ExceptHandler(
+        type=copy.deepcopy(row.elts[tcol]), name=h.name,
+        body=[ast.Assign(targets=[ast.Name(id=var, ctx=ast.Store())],
+                         value=ast.Tuple(elts=elts, ctx=ast.Load()))])
+    for n in ast.walk(new):
+      ast.copy_location(n, h)
+    out.append(new)
+  return out
+
+
 @rule("R15.2", "C15", floor=12)
 def r15_2(ctx):
   """Compile errors become a python-compiler-error; nothing is shadowed."""
@@ -445,7 +551,7 @@ def r15_2(ctx):
   n_required = n_params - len(pce.args.defaults)
 
   handlers = []
-  for h in tr.handlers:
+  for h in [x for h0 in tr.handlers for x in _expand_table_handler(mod, h0, var)]:
     if h.type is None:
       types = [("BaseException", {"BaseException", "object"}, BaseException)]
     elif isinstance(h.type, ast.Tuple):
@@ -1902,7 +2008,59 @@ _FALLBACK_HELPER = [
      + _FALLBACK_OLD + "\n\ndef _write_pyi_output(options, contents, filename):\n"),
 ]
 
+_EXCEPT_CHAIN = (
+    "  except pyc.CompileError as e:\n"
+    "    compiler_error = (options.input, e.line, e.error)\n"
+    "  except constant_folding.ConstantError as e:\n"
+    "    compiler_error = (options.input, e.lineno, e.message)\n"
+    "  except IndentationError as e:\n"
+    "    compiler_error = (options.input, e.lineno, e.msg)\n"
+    "  except libcst.ParserSyntaxError as e:\n"
+    "    # TODO(rechen): We can get rid of this branch once we delete\n"
+    "    # directors.parser_libcst.\n"
+    "    compiler_error = (options.input, e.raw_line, e.message)\n"
+    "  except SyntaxError as e:\n"
+    "    compiler_error = (options.input, e.lineno, e.msg)\n")
+_TABLE_ROWS = ('(pyc.CompileError, "line", "error")', '(constant_folding.ConstantError, "lineno", "message")',
+               '(IndentationError, "lineno", "msg")', '(libcst.ParserSyntaxError, "raw_line", "message")',
+               '(SyntaxError, "lineno", "msg")')
+
+
+def _error_table(rows=_TABLE_ROWS, types="tuple(\n    exc_type for exc_type, _, _ in _COMPILER_ERROR_ATTRIBUTES\n)",
+                 test="isinstance(e, exc_type)"):
+  """The five compile-error handlers as one table-driven handler (the shape of
+  benign/C15-b3r1), with room for a defect."""
+  return [
+      (IO, "@_set_verbosity_from(posarg=0)\ndef check_or_generate_pyi(options)",
+       "_COMPILER_ERROR_ATTRIBUTES = (\n" + "".join(f"    {r},\n" for r in rows) + ")\n"
+       f"_COMPILER_ERROR_TYPES = {types}\n\n\n"
+       "def _describe_compiler_error(filename, e):\n"
+       "  for exc_type, line_attr, message_attr in _COMPILER_ERROR_ATTRIBUTES:\n"
+       f"    if {test}:\n"
+       "      return (filename, getattr(e, line_attr), getattr(e, message_attr))\n"
+       '  raise AssertionError(f"Not a compiler error: {e!r}")\n\n\n'
+       "@_set_verbosity_from(posarg=0)\ndef check_or_generate_pyi(options)"),
+      (IO, _EXCEPT_CHAIN,
+       "  except _COMPILER_ERROR_TYPES as e:\n"
+       "    compiler_error = _describe_compiler_error(options.input, e)\n")]
+
+
 VARIANTS = [
+    # benign/C15-b3r1: the compile-error handlers driven by a module-level table
+    {"name": "twin-benign-C15-b3r1-error-table", "rule": "R15.2",
+     "patch": "benign/C15-b3r1/patch.diff", "expect": "silent"},
+    {"name": "twin-error-table", "rule": "R15.2", "expect": "silent", "edits": _error_table()},
+    {"name": "error-table-wrong-attribute", "rule": "R15.2", "expect": "fire",
+     "edits": _error_table(rows=_TABLE_ROWS[:4] + ('(SyntaxError, "line", "msg")',))},
+    {"name": "error-table-lacks-constant-error", "rule": "R15.2", "expect": "fire",
+     "edits": _error_table(rows=_TABLE_ROWS[:1] + _TABLE_ROWS[2:])},
+    # a broader row first: every compile error is described with attributes it lacks
+    {"name": "error-table-broad-row-first", "rule": "R15.2", "expect": "fire",
+     "edits": _error_table(rows=('(Exception, "lineno", "msg")',) + _TABLE_ROWS)},
+    {"name": "error-table-types-from-other-expression", "rule": "R15.2", "expect": "error",
+     "edits": _error_table(types="tuple(r[0] for r in _COMPILER_ERROR_ATTRIBUTES[1:])")},
+    {"name": "error-table-helper-tests-type-identity", "rule": "R15.2", "expect": "error",
+     "edits": _error_table(test="type(e) is exc_type")},
     # -- R15.1
     {"name": "delete-byte_END_SEND", "rule": "R15.1", "file": VM, "expect": "fire",
      "old": "  def byte_END_SEND(self, state, op):",
@@ -2355,3 +2513,18 @@ ASSUMPTIONS += [
     "constants; converting them to Python constants cannot raise "
     "ConversionError",
 ]
+
+EXPLANATION += (
+    "\n\nR15.2, table-driven handler: `except TYPES as e: compiler_error = "
+    "describe(x, e)` where TYPES is a module-level `tuple(t for t, .. in TABLE)` "
+    "over a once-bound literal table of (type, attribute names..) rows and "
+    "describe is `for <row> in TABLE: if isinstance(e, <type>): return (x, "
+    "getattr(e, <col>), ..)` followed by raise, is read as the chain of except "
+    "clauses `except <type_i> as e: compiler_error = (x, e.<attr_i>, ..)` in "
+    "table order (_expand_table_handler): the first row whose type matches "
+    "decides, exactly like the first matching except clause, and the tuple "
+    "catches what some row catches.  The expanded clauses are then checked like "
+    "hand-written ones (attributes exist on the exception, nothing is shadowed "
+    "by a broader earlier row).  Any other computed exception type, table or "
+    "helper shape is an AnalysisError."
+)
